@@ -15,6 +15,8 @@ def main():
     d = os.path.join(ROOT, "seeded", sid)
     meta = json.load(open(os.path.join(d, "meta.json")))
     props = meta["property"] if isinstance(meta["property"], list) else [meta["property"]]
+    for i, a in enumerate(sys.argv):
+        if a == "--props": props = sys.argv[i + 1].split(",")  # run other properties' checks against the change as well
     # The patch is applied in a scratch worktree and reaches the build through a Go overlay (VERIF_OVERLAY), so /repo itself
     # is never modified (other runs may be building from it at the same time); the result is the same as applying it to /repo.
     wt = "/tmp/seedwt-" + sid
@@ -48,6 +50,11 @@ def main():
         import hashlib, shutil
         shutil.rmtree(os.path.join(ROOT, ".build", "ov-" + hashlib.sha256(os.path.join(wt, "verif-overlay.json").encode()).hexdigest()[:10]), ignore_errors=True)
     caught = any(x["exit"] == 1 for x in results)
+    rf = os.path.join(d, "result.json")
+    if "--props" in sys.argv and os.path.exists(rf):
+        old = json.load(open(rf))
+        results = old.get("runs", []) + results
+        caught = caught or old.get("caught", False)
     json.dump({"caught": caught, "runs": results, "at": time.strftime("%Y-%m-%dT%H:%M:%SZ", time.gmtime())}, open(os.path.join(d, "result.json"), "w"), indent=1)
     print("CAUGHT" if caught else "MISSED")
     return 0
